@@ -174,8 +174,88 @@ def check_foreign(inp):
     return fails
 
 
+def check_depth(inp):
+    """
+    the same questions asked at every call depth near the interpreter's recursion limit: a call either does not complete
+    (RecursionError reaches the caller) or answers what it answers anywhere else.  Code that swallows exceptions wholesale
+    turns the former into a wrong answer exactly there.  Runs in a thread of its own with a temporarily lowered limit.
+    """
+    import sys
+    import threading
+    va, a, vb, b = inp["ver_a"], inp["a"], inp["ver_b"], inp["b"]
+    Ca, Cb = obs.classes()[va], obs.classes()[vb]
+    oa, ob = Ca(a), Cb(b)
+
+    questions = (lambda: oa == ob, lambda: ob == oa, lambda: oa != ob, lambda: oa == oa, lambda: hash(oa) == hash(ob), lambda: oa in [ob],
+                 lambda: oa.clean_vector(), lambda: list(oa.scores()), lambda: list(oa.severities()), lambda: oa.rh_vector(),
+                 lambda: sorted(oa.as_json(sort=True, minimal=True).items()), lambda: list(Ca(a).scores()), lambda: Ca(a) == oa)
+
+    def ask():
+        return [q() for q in questions]
+
+    def dive(n, q):
+        if n <= 0:
+            return q()
+        return dive(n - 1, q)
+    box = {}
+
+    def body():
+        old = sys.getrecursionlimit()
+        try:
+            box["base"] = ask()
+            limit = 260
+            sys.setrecursionlimit(limit)
+            out = []
+            for n in range(limit - 60, limit + 2):
+                row = []
+                for q in questions:          # one question per dive: each needs another number of frames
+                    try:
+                        row.append([dive(n, q)])
+                    except RecursionError:
+                        row.append(None)
+                out.append((n, row))
+            box["out"] = out
+        except BaseException as e:  # noqa
+            box["exc"] = e
+        finally:
+            sys.setrecursionlimit(old)
+    t = threading.Thread(target=body)
+    t.start()
+    t.join()
+    if "exc" in box:
+        return [failure("answers or RecursionError", "%s: %s" % (type(box["exc"]).__name__, box["exc"]))]
+    fails = []
+    answered = sum(1 for n, row in box["out"] for r in row if r is not None)
+    total = sum(len(row) for n, row in box["out"])
+    for n, row in box["out"]:
+        for i, r in enumerate(row):
+            if r is not None and r[0] != box["base"][i]:
+                fails.append(failure(box["base"][i], r[0], note="question %d asked %d frames deep (recursion limit 260) is ANSWERED, and differently from the same question at the top" % (i, n)))
+                return fails
+    if not answered or answered == total:
+        raise runner.HarnessError("depth sweep did not straddle the recursion limit (%d of %d questions answered)" % (answered, total))
+    return fails
+
+
 CHECKS = {"canonical": check_canonical, "order": check_order, "pair": check_pair, "triple": check_triple,
-          "foreign": check_foreign}
+          "foreign": check_foreign, "depth": check_depth}
+
+
+def depth_part(shard, n, seed):
+    import random
+    part = runner.Part(PID)
+    rng = random.Random(runner.mix(seed, 77, shard))
+    for i in range(n):
+        ver = spec.VKEYS[(i + shard) % 3]
+        a = gen.rng_vector(rng, ver, p_opt=0.5)
+        prefix, m = ref.parse(ver, a)
+        ks = list(m)
+        rng.shuffle(ks)
+        b = ref.build(prefix, m, ks) if i % 3 else gen.rng_vector(rng, ver)
+        inp = {"ver_a": ver, "a": a, "ver_b": ver, "b": b}
+        part.count(inp, nontrivial=True, classes=("depth-sweep",))
+        part.check("depth", check_depth, inp)
+    return part
 
 
 def pair_strategy():
@@ -259,10 +339,12 @@ def hyp_part(n_examples, shard):
 
 def run(tier, t0):
     part = runner.hyp_shards("vf.props.c07", "hyp_part", 6000 if tier == "quick" else 240000)
+    for p in runner.parallel("vf.props.c07", "depth_part", [(sh, 3 if tier == "quick" else 40, runner.SEED) for sh in range(runner.NPROC)]):
+        part.merge(p)
     rule = ("single accepted vectors and pairs built as: other spelling of the same assignment, one metric changed, "
             "several changed, 3.0/3.1 twin, vector of another version, independent vector; triples (a, b, clean(a)); "
             "non-CVSS values (own clean string, None, tuple, bytes, ...). non-trivial = pair whose members differ as "
             "strings; distinct by 64-bit hash")
     return runner.finish(part, tier, t0, rule,
                          ["'one fixed order' is read as a consistent relative order of any two metrics across all outputs of the run (the official order is C08's business)"],
-                         required=["pair:" + k for k in ("respell", "one-metric", "several", "minor-twin", "other-version", "independent")] + ["foreign", "v2", "v3", "v4"])
+                         required=["pair:" + k for k in ("respell", "one-metric", "several", "minor-twin", "other-version", "independent")] + ["foreign", "v2", "v3", "v4", "depth-sweep"])
